@@ -111,8 +111,8 @@ def shards(tier):
             for k in range(nchunk):
                 out.append({'kind': 'chain', 'start': t, 'chunk': k, 'nchunk': nchunk, 'minlen': 1, 'maxlen': 4, 'inv': 1, 'su': 1})
         for t in ('K', 'LT'):
-            for k in range(27):
-                out.append({'kind': 'chain', 'start': t, 'chunk': k, 'nchunk': 27, 'minlen': 1, 'maxlen': 4, 'inv': 1, 'su': 1})
+            for k in range(16):
+                out.append({'kind': 'chain', 'start': t, 'chunk': k, 'nchunk': 16, 'minlen': 1, 'maxlen': 4, 'inv': 1, 'su': 1})
     return out
 
 
@@ -211,6 +211,9 @@ def run(spec, tier, res):
                 c = (item,) + items
                 res.count('evaluations')
                 res.count('chains')
+                res.count('states')
+                res.count('transitions', 6)  # canonical, uppermost, promote to 0..3 dims, each executed on the real code
+                res.count('traces_validated_against_impl', 6)
                 try:
                     with core.alarm(30):
                         bad, changed = check_chain(c, t3)
